@@ -49,3 +49,54 @@ Proof.
     list_len y Hy3. list_len z H3. cbv - [Rplus Rmult Rminus Ropp Rdiv Rinv sqrt IZR pow]. repeat (f_equal; try ring). }
   rewrite E. apply act_inv3; auto.
 Qed.
+
+(* ---------- SE(2) odometry and landmark ---------- *)
+Ltac fold_wrap :=
+  repeat match goal with
+  | |- context [rmod (?x + PI) (2 * PI) - PI] => change (rmod (x + PI) (2 * PI) - PI) with (wrap x)
+  end.
+Ltac trig_norm :=
+  repeat rewrite ?cos_wrap, ?sin_wrap, ?cos_plus, ?sin_plus, ?cos_minus, ?sin_minus, ?cos_neg, ?sin_neg.
+
+Lemma odo2_model p1 p2 z : length p1 = 3%nat -> length p2 = 3%nat -> length z = 3%nat ->
+  let D := evl (p2 ++ p1) SE2_ominus in
+  let E := evl (z ++ D) SE2_ominus in
+  err_odo2 p1 p2 z = E /\
+  mmul (hom2 p1) (hom2 D) = hom2 p2 /\
+  mmul (hom2 D) (hom2 E) = hom2 z.
+Proof.
+  intros H1 H2 H3. cbv zeta. split; [apply err_odo2_unfold; auto|].
+  list_len p1 H1. list_len p2 H2. list_len z H3.
+  pose proof (sc1 x1) as C1. pose proof (sc1 x4) as C4.
+  split; cb0; fold_wrap; trig_norm; repeat (f_equal; try ring [C1 C4]).
+Qed.
+Lemma lmk2_model p l z off : length p = 3%nat -> length l = 2%nat -> length z = 2%nat -> length off = 3%nat ->
+  let Q := evl (p ++ off) SE2_oplus in
+  let x := vadd (err_lmk2 p l z off) z in
+  spec_act2 Q x = l.
+Proof.
+  intros H1 H2 H3 H4. cbv zeta. rewrite err_lmk2_unfold by auto.
+  list_len p H1. list_len l H2. list_len z H3. list_len off H4.
+  cb0; fold_wrap; trig_norm.
+  pose proof (sc1 x1) as C1. pose proof (sc1 x8) as C8.
+  repeat (f_equal; try ring [C1 C8]).
+Qed.
+
+(* ---------- R^2 / R^3 ---------- *)
+Lemma Rn_models :
+  (forall p1 p2 z, length p1 = 2%nat -> length p2 = 2%nat -> length z = 2%nat ->
+     err_odoR2 p1 p2 z = [nth 0 z 0 - (nth 0 p2 0 - nth 0 p1 0); nth 1 z 0 - (nth 1 p2 0 - nth 1 p1 0)]) /\
+  (forall p1 p2 z, length p1 = 3%nat -> length p2 = 3%nat -> length z = 3%nat ->
+     err_odoR3 p1 p2 z = [nth 0 z 0 - (nth 0 p2 0 - nth 0 p1 0); nth 1 z 0 - (nth 1 p2 0 - nth 1 p1 0); nth 2 z 0 - (nth 2 p2 0 - nth 2 p1 0)]) /\
+  (forall p l z off, length p = 2%nat -> length l = 2%nat -> length z = 2%nat -> length off = 2%nat ->
+     err_lmkR2 p l z off = [nth 0 l 0 - (nth 0 p 0 + nth 0 off 0) - nth 0 z 0; nth 1 l 0 - (nth 1 p 0 + nth 1 off 0) - nth 1 z 0]) /\
+  (forall p l z off, length p = 3%nat -> length l = 3%nat -> length z = 3%nat -> length off = 3%nat ->
+     err_lmkR3 p l z off = [nth 0 l 0 - (nth 0 p 0 + nth 0 off 0) - nth 0 z 0; nth 1 l 0 - (nth 1 p 0 + nth 1 off 0) - nth 1 z 0;
+                            nth 2 l 0 - (nth 2 p 0 + nth 2 off 0) - nth 2 z 0]).
+Proof.
+  repeat split; intros.
+  - list_len p1 H. list_len p2 H0. list_len z H1. cb0. repeat (f_equal; try ring).
+  - list_len p1 H. list_len p2 H0. list_len z H1. cb0. repeat (f_equal; try ring).
+  - list_len p H. list_len l H0. list_len z H1. list_len off H2. cb0. repeat (f_equal; try ring).
+  - list_len p H. list_len l H0. list_len z H1. list_len off H2. cb0. repeat (f_equal; try ring).
+Qed.
